@@ -1,14 +1,15 @@
-\* C42 leg A quick: grid 0..8, steps {1,2,4} all "common", split interval 4, min extent off,
-\* worlds 1,2; every reachable cache content
+\* C42 leg A quick: ONE interval (grid 0..5, interval 6), steps {1,2,4} all "common" (alternative keys),
+\* min extent off, worlds 1,2,4; every reachable cache content = histories of any length
 SPECIFICATION Spec
-CONSTANTS T = 8
+CONSTANTS T = 5
           StepSet = {1, 2, 4}
           Common = {1, 2, 4}
-          Ivs = {4}
+          Ivs = {6}
           MinExt = 100
-          WorldIds = {1, 2}
-          GridFix = FALSE
+          WorldIds = {1, 2, 4}
+          GridFix = TRUE
           Unaligned = FALSE
+          MaxHist = 0
           HistLen = 2
 INVARIANTS RespIsDirect C42_ExtentsHoldDirectData C42_ExtentsOrdered
 PROPERTIES C42_ResponsesAreDirect
